@@ -1,5 +1,6 @@
 import Cpl.Spec.Torus
 import Cpl.Lemmas.Evolve2D
+import Cpl.Lemmas.Equivariance
 
 /-!
 # C02 — 2D evolution is the synchronous update of a torus (Moore / von Neumann)
@@ -126,5 +127,77 @@ example : (vonNeumannMask 2).map (·.map fun b => if b then 1 else 0)
 example : torusWindow [[1, 2, 3], [4, 5, 6]] 2 3 2 0 0
     = [[2, 3, 1, 2, 3], [5, 6, 4, 5, 6], [2, 3, 1, 2, 3], [5, 6, 4, 5, 6], [2, 3, 1, 2, 3]] := by decide
 example : blockAt [[1, 2, 3], [4, 5, 6]] 2 0 0 = torusWindow [[1, 2, 3], [4, 5, 6]] 2 3 2 0 0 := by decide
+
+end Cpl.C02
+
+/-! ## Translation equivariance (periodic boundary)
+
+Because positions are taken modulo `R` and `C`, translating the torus commutes with the synchronous
+update, for every pure rule `f`, both neighbourhood types, every radius `r ≤ min(R, C)` and every
+offset `(dx, dy)` (also `dx ≥ R`, `dy ≥ C`: offsets act modulo the shape).
+Convention: cell `(i, j)` of `shift2 R C dx dy g` is cell `((i + dx) mod R, (j + dy) mod C)` of `g`,
+i.e. the content moves up by `dx` rows and left by `dy` columns — `rotateLeft` on both axes
+(`shift2_eq_rotateLeft`). The `evolve2d`-level corollary is `C04.evolve2d_shift` (it needs the
+mode-independence theorem of C04, which imports this file). -/
+
+namespace Cpl.C02
+open Cpl Cpl.Spec
+
+variable {α : Type}
+
+/-- Translation of the torus by `(dx, dy)`. -/
+abbrev shift2 [Inhabited α] (R C dx dy : Nat) (g : Grid α) : Grid α := Equivariance.shift2 R C dx dy g
+
+/-- The defining property: cell `(i, j)` of the shifted grid. -/
+theorem shift2_cell [Inhabited α] (R C dx dy : Nat) (g : Grid α) (i j : Nat) (hi : i < R) (hj : j < C) :
+    ((shift2 R C dx dy g)[i]!)[j]! = (g[(i + dx) % R]!)[(j + dy) % C]! := by
+  exact Equivariance.shift2_cell R C dx dy g hi hj
+
+theorem shift2_rect [Inhabited α] (R C dx dy : Nat) (g : Grid α) : Rect (shift2 R C dx dy g) R C := by
+  exact Equivariance.shift2_rect R C dx dy g
+
+/-- On a rectangular grid the translation is `rotateLeft` of the rows and of the list of rows. -/
+theorem shift2_eq_rotateLeft [Inhabited α] (R C dx dy : Nat) (g : Grid α) (hg : Rect g R C) :
+    shift2 R C dx dy g = (g.map (·.rotateLeft dy)).rotateLeft dx := by
+  exact Equivariance.shift2_eq_rotateLeft R C dx dy g hg
+
+/-- **The neighbourhood in a translated torus** is the neighbourhood of the original torus at the
+    translated cell, masked (von Neumann) or not (Moore); for every `(i, j)` and every grid `g`. -/
+theorem nbhd_shift [Inhabited α] (g : Grid α) (R C r dx dy : Nat) (vn : Bool) (i j : Nat)
+    (hR1 : 1 ≤ R) (hC1 : 1 ≤ C) (hR : r ≤ R) (hC : r ≤ C) :
+    nbhd (shift2 R C dx dy g) R C r vn i j = nbhd g R C r vn ((i + dx) % R) ((j + dy) % C) := by
+  exact Equivariance.nbhd_shift g R C r dx dy vn i j hR1 hC1 hR hC
+
+theorem torusWindow_shift [Inhabited α] (g : Grid α) (R C r dx dy : Nat) (i j : Nat)
+    (hR1 : 1 ≤ R) (hC1 : 1 ≤ C) (hR : r ≤ R) (hC : r ≤ C) :
+    torusWindow (shift2 R C dx dy g) R C r i j = torusWindow g R C r ((i + dx) % R) ((j + dy) % C) := by
+  exact Equivariance.torusWindow_shift g R C r dx dy i j hR1 hC1 hR hC
+
+/-- **One synchronous torus step commutes with translation**, for every pure rule. -/
+theorem pureStep2_shift [Inhabited α] (f : Nbhd2 α → α) (g : Grid α) (R C r dx dy : Nat) (vn : Bool)
+    (hR1 : 1 ≤ R) (hC1 : 1 ≤ C) (hR : r ≤ R) (hC : r ≤ C) :
+    pureStep2 f R C r vn (shift2 R C dx dy g) = shift2 R C dx dy (pureStep2 f R C r vn g) := by
+  exact Equivariance.pureStep2_shift f g R C r dx dy vn hR1 hC1 hR hC
+
+/-- **The whole run commutes with translation**: every grid of the run from the translated torus is
+    the translated grid of the run from the original torus. -/
+theorem pureRun2_shift [Inhabited α] (f : Nbhd2 α → α) (R C r dx dy : Nat) (vn : Bool) (n : Nat)
+    (g : Grid α) (hR1 : 1 ≤ R) (hC1 : 1 ≤ C) (hR : r ≤ R) (hC : r ≤ C) :
+    pureRun2 f R C r vn n (shift2 R C dx dy g) = (pureRun2 f R C r vn n g).map (shift2 R C dx dy) := by
+  exact Equivariance.pureRun2_shift f R C r dx dy vn n g hR1 hC1 hR hC
+
+/-! ### Non-vacuity (an asymmetric rule: north + 2 · east, on a 2×3 torus; offsets beyond the shape) -/
+example : shift2 2 3 1 2 [[1, 2, 3], [4, 5, 6]] = [[6, 4, 5], [3, 1, 2]] ∧
+    shift2 2 3 3 5 [[1, 2, 3], [4, 5, 6]] = [[6, 4, 5], [3, 1, 2]] := by decide
+example : pureStep2 (fun n : Nbhd2 Nat => ((n[0]!)[1]!).getD 9 + 2 * ((n[1]!)[2]!).getD 9) 2 3 1 true
+      [[1, 2, 3], [4, 5, 6]] = [[8, 11, 8], [11, 14, 11]] ∧
+    pureStep2 (fun n : Nbhd2 Nat => ((n[0]!)[1]!).getD 9 + 2 * ((n[1]!)[2]!).getD 9) 2 3 1 true
+      (shift2 2 3 1 2 [[1, 2, 3], [4, 5, 6]]) = shift2 2 3 1 2 [[8, 11, 8], [11, 14, 11]] := by decide
+example : pureRun2 (fun n : Nbhd2 Nat => (((n[0]!)[1]!).getD 9 + 2 * ((n[1]!)[2]!).getD 9) % 5) 2 3 1 false 2
+      (shift2 2 3 3 5 [[1, 2, 3], [4, 5, 6]])
+    = (pureRun2 (fun n : Nbhd2 Nat => (((n[0]!)[1]!).getD 9 + 2 * ((n[1]!)[2]!).getD 9) % 5) 2 3 1 false 2
+        [[1, 2, 3], [4, 5, 6]]).map (shift2 2 3 3 5) := by decide
+/-- `r ≤ R` is needed: for `r > R` the truncated subtraction breaks the symmetry. -/
+example : torusWindow (shift2 1 2 0 1 [[10, 20]]) 1 2 5 0 0 ≠ torusWindow [[10, 20]] 1 2 5 0 1 := by decide
 
 end Cpl.C02
